@@ -123,13 +123,18 @@ def gen_case(chk, i):
             k1 = len(ops) - 1 - ops[::-1].index("ev OHe now -")
             ops = ops[:k0 + 1] + ops[k0 + 1:min(k0 + 13, k1)] + ops[k1:]
             ops = [o for o in ops if not o.startswith("mark_p")]      # no half pairs left by the cut
-        if t > 0:
-            # the first thread declares all CPUs of the loom; the others none
+        # who declares the CPUs of the loom: the first thread all of them and the others
+        # none, or every thread the CPU it runs on (each list is then partial), or
+        # every thread the whole list
+        cpumode = ["first", "own", "first", "all"][i % 4] if nth > 1 else "first"
+        if cpumode == "own":
+            pass                          # gen_thread already declares cpu t t
+        elif cpumode == "all" or t == 0:
             ops = [o for o in ops if not o.startswith("cpu ")]
+            idx = ops.index("require nosv 2.0.0")
+            ops[idx:idx] = ["cpu %d %d" % (k, k) for k in range(nth)]
         else:
-            extra = ["cpu %d %d" % (k, k) for k in range(1, nth)]
-            idx = ops.index("cpu 0 0")
-            ops[idx + 1:idx + 1] = extra
+            ops = [o for o in ops if not o.startswith("cpu ")]
         secs.append(ops)
         infos.append(inf)
     if nth > 1 and i % 2 == 0:
@@ -238,6 +243,18 @@ def run_case(i):
             cpus += st.get("cpus", 0)
         if cpus == 0:
             out["viol"] = ("metadata-incomplete:no-loom-cpus", "no stream of the loom carries loom_cpus", {}); return out
+        # every CPU some thread declared must be in the union of the metadata
+        declared = set()
+        for sd in sdirs:
+            try:
+                m = json.load(open(os.path.join(sd, "stream.json")))
+                declared.update(c["index"] for c in m.get("ovni", {}).get("loom_cpus", []))
+            except (OSError, ValueError, KeyError, TypeError):
+                pass
+        missing = sorted(set(range(info["threads"])) - declared)
+        if missing:
+            out["viol"] = ("metadata-incomplete:cpus-dropped", "CPUs %s were declared with ovni_add_cpu but are in no stream's "
+                           "metadata" % missing[:8], {}); return out
         r = emu.emu(plain, tdir, ["-l"], timeout=120, nofile=32 if info["threads"] >= 40 else None)
         if r.timeout:
             out["inconclusive"] = "emulator timeout"; return out
